@@ -47,24 +47,36 @@ WhySig(c, q) ==
     ELSE c.fam \o ":" \o Class(c, q.name) \o ":" \o QDecl(c, q).d.kind \o "@" \o q.scope \o ":winner=L"
          \o ToString(WinLevel(c, order, q.name, EffMachine(c, q.name, q.m)))
 
+\* for debug / optimization: is the offending value the one deduced from the deciding buildtype?
+GotSig(c, q, v) ==
+    IF q.name \in BtNames /\ IsBtCase(c)
+    THEN LET o2 == IF q.scope = "t" THEN TopOrder ELSE SubOrder("global")
+             b == BtRank(c, o2)
+         IN IF b # 0 /\ v = Derived(q.name, OneWord(Given(c, o2[b], "buildtype", "h"))) THEN ":got-deduced" ELSE ":got-other"
+    ELSE ""
+
 SetSeq(S) == SetToSeqR(S)
+
+\* all verdicts of a replayed configuration (every offending query is reported, so that a known deviation of
+\* one option cannot hide a deviation of another option of the same generated project)
+RECURSIVE VerdictsOf(_, _, _, _)
+VerdictsOf(c, clause, js, obs) ==
+    IF js = {} THEN <<>>
+    ELSE LET j == Min(js) IN
+         <<Verdict(c, clause, WhySig(c, c.q[j]) \o GotSig(c, c.q[j], obs[j]), j,
+                   IF clause = "StoredValueInvalid" THEN <<>> ELSE SetSeq(Allowed(c, c.q[j])), <<obs[j]>>)>>
+         \o VerdictsOf(c, clause, js \ {j}, obs)
 
 JudgeScenario(c) ==
     IF WinnerInvalid(c) /\ ~c.raised
-    THEN Verdict(c, "InvalidValueAccepted", c.fam, 0, <<>>, <<>>)
+    THEN <<Verdict(c, "InvalidValueAccepted", c.fam, 0, <<>>, <<>>)>>
     ELSE IF ~AnyInvalidGiven(c) /\ c.raised
-    THEN Verdict(c, "ValidConfigurationRejected", c.fam, 0, <<>>, <<>>)
-    ELSE IF c.raised THEN OkVerdict(c)
-    ELSE IF BadObs(c, c.obs) # {}
-    THEN LET j == Min(BadObs(c, c.obs)) IN
-         Verdict(c, "Precedence", WhySig(c, c.q[j]), j, SetSeq(Allowed(c, c.q[j])), <<c.obs[j]>>)
-    ELSE IF BadObs(c, c.obs2) # {}
-    THEN LET j == Min(BadObs(c, c.obs2)) IN
-         Verdict(c, "PrecedenceIntrospect", WhySig(c, c.q[j]), j, SetSeq(Allowed(c, c.q[j])), <<c.obs2[j]>>)
-    ELSE IF InvalidObs(c, c.obs) \cup InvalidObs(c, c.obs2) # {}
-    THEN LET j == Min(InvalidObs(c, c.obs) \cup InvalidObs(c, c.obs2)) IN
-         Verdict(c, "StoredValueInvalid", WhySig(c, c.q[j]), j, <<>>, <<c.obs[j]>>)
-    ELSE OkVerdict(c)
+    THEN <<Verdict(c, "ValidConfigurationRejected", c.fam, 0, <<>>, <<>>)>>
+    ELSE IF c.raised THEN <<>>
+    ELSE VerdictsOf(c, "Precedence", BadObs(c, c.obs), c.obs)
+         \o VerdictsOf(c, "PrecedenceIntrospect", BadObs(c, c.obs2) \ BadObs(c, c.obs), c.obs2)
+         \o VerdictsOf(c, "StoredValueInvalid", InvalidObs(c, c.obs), c.obs)
+         \o VerdictsOf(c, "StoredValueInvalid", InvalidObs(c, c.obs2) \ InvalidObs(c, c.obs), c.obs2)
 
 \* ---- API traces (state-machine judge) ---------------------------------------------------
 Step(st, ev) ==
@@ -76,7 +88,15 @@ Step(st, ev) ==
       [] ev.op = "configure"   -> Configure(st, ev.D)
 
 Known(st, k) == Exists(st, CanonKey(st, k))
-ObsDiff(st, obs) == {j \in 1..Len(obs) : ~Known(st, obs[j].k) \/ Get(st, obs[j].k) # obs[j].v}
+\* c.watch: the keys read after every call (it only grows; ev.nw = how many of them existed at that call);
+\* ev.obs: the readings that differ from the previous reading.  Mismatches: a listed reading that is not the
+\* machine's value, or an unlisted key whose machine value changed.
+ObsOf(ev, k) == {x \in 1..Len(ev.obs) : ev.obs[x].k = k}
+ObsDiff(c, st0, st1, ev) ==
+    {j \in 1..ev.nw :
+        LET k == c.watch[j] IN
+        IF ObsOf(ev, k) # {} THEN ~Known(st1, k) \/ Get(st1, k) # ev.obs[Min(ObsOf(ev, k))].v
+        ELSE ~Known(st1, k) \/ ~Known(st0, k) \/ Get(st1, k) # Get(st0, k)}
 ObsInvalid(st, obs) == {j \in 1..Len(obs) : Known(st, obs[j].k) /\ ~ValOK(Resolve(st, CanonKey(st, obs[j].k)).d, obs[j].v)}
 
 OpSig(ev) == IF ev.op = "configure" /\ \E j \in 1..Len(ev.D) : ev.D[j].r.t = "none" THEN "configure-U" ELSE ev.op
@@ -88,22 +108,25 @@ JudgeFrom(c, st, n) ==
              r == Step(st, ev)
          IN IF r.ok /\ ev.raised THEN Verdict(c, "ValidCallRejected", OpSig(ev), n, <<>>, <<>>)
             ELSE IF ~r.ok /\ ~ev.raised THEN Verdict(c, "InvalidCallAccepted", OpSig(ev), n, <<>>, <<>>)
-            ELSE IF ObsDiff(r.st, ev.obs) # {}
-            THEN LET j == Min(ObsDiff(r.st, ev.obs)) IN
+            ELSE IF ObsDiff(c, st, r.st, ev) # {}
+            THEN LET j == Min(ObsDiff(c, st, r.st, ev))
+                     k == c.watch[j] IN
                  Verdict(c, IF r.ok THEN "ValueAfterCall" ELSE "RejectedCallChangedValue",
-                         OpSig(ev) \o ":" \o ev.obs[j].k.s \o ":" \o ev.obs[j].k.n, n, IF Known(r.st, ev.obs[j].k) THEN <<Get(r.st, ev.obs[j].k)>> ELSE <<>>, <<ev.obs[j].v>>)
+                         OpSig(ev) \o ":" \o k.s \o ":" \o k.n, n,
+                         IF Known(r.st, k) THEN <<Get(r.st, k)>> ELSE <<>>,
+                         IF ObsOf(ev, k) # {} THEN <<ev.obs[Min(ObsOf(ev, k))].v>> ELSE <<"unchanged">>)
             ELSE IF ObsInvalid(r.st, ev.obs) # {}
-            THEN Verdict(c, "StoredValueInvalid", ev.op, n, <<>>, <<>>)
+            THEN Verdict(c, "StoredValueInvalid", OpSig(ev), n, <<>>, <<>>)
             ELSE JudgeFrom(c, r.st, n + 1)
 
 JudgeApi(c) == JudgeFrom(c, EmptyStore(c.cross, Range(c.latent)), 1)
 
-Judge(c) == IF c.fam = "api" THEN JudgeApi(c) ELSE JudgeScenario(c)
+Judge(c) == IF c.fam = "api" THEN (LET v == JudgeApi(c) IN IF v.clause = "ok" THEN <<>> ELSE <<v>>) ELSE JudgeScenario(c)
 
 Init == i \in 1..Len(Cases) /\ done = FALSE
 Next == /\ ~done
         /\ done' = TRUE
         /\ i' = i
-        /\ LET v == Judge(Cases[i]) IN v.clause = "ok" \/ PrintT(ToJson(v))
+        /\ LET vs == Judge(Cases[i]) IN \A j \in 1..Len(vs) : PrintT(ToJson(vs[j]))
 Spec == Init /\ [][Next]_vars
 =============================================================================
